@@ -776,6 +776,10 @@ func (w *Walker) stmt(s ast.Stmt, f Formula) Formula {
 				w.Mutated(target)
 			}
 		}
+		// a call that does not return (panic, os.Exit, log.Fatal): the path ends here without being an exit of the function
+		if w.stmtTerminates(x) {
+			w.cur = 0
+		}
 	case *ast.AssignStmt:
 		for _, r := range x.Rhs {
 			w.expr(r, f)
